@@ -223,7 +223,16 @@ class ProgGen(object):
         t = rng.choice(self.type_names)
         node = {"k": "msg", "nid": self._nid(), "style": style, "type": (t + ":m") if t else "", "fields": f}
         if typed:
-            node["decl"] = self.typed_decl(f)
+            defs = self.__dict__.setdefault("_mdefs", [])
+            if defs and rng.random() < 0.5:
+                # the same declared type used again with other values (types are long-lived objects in real programs)
+                tt, decl = rng.choice(defs)
+                node["type"] = tt
+                node["fields"] = {k: gen_value(rng, self.value_depth) for k in decl}
+                node["decl"] = dict(decl)
+            else:
+                node["decl"] = self.typed_decl(f)
+                defs.append((node["type"], dict(node["decl"])))
         return node
 
     def tb(self):
@@ -243,8 +252,17 @@ class ProgGen(object):
         if ident:
             node["result"] = self.hostile(rng) if (self.hostile is not None and rng.random() < 0.4) else gen_value(rng, self.value_depth)
         if typed:
-            node["decl_start"] = self.typed_decl(node["start"])
-            node["decl_success"] = self.typed_decl(node["success"])
+            defs = self.__dict__.setdefault("_adefs", [])
+            if defs and rng.random() < 0.5:
+                tt, ds, dsu = rng.choice(defs)
+                node["type"] = tt
+                node["start"] = {k: gen_value(rng, self.value_depth) for k in ds}
+                node["success"] = {k: gen_value(rng, self.value_depth) for k in dsu}
+                node["decl_start"], node["decl_success"] = dict(ds), dict(dsu)
+            else:
+                node["decl_start"] = self.typed_decl(node["start"])
+                node["decl_success"] = self.typed_decl(node["success"])
+                defs.append((node["type"], dict(node["decl_start"]), dict(node["decl_success"])))
         if style in ("with", "ctx_finish", "ActionType") and rng.random() < 0.2:
             node["extra_finish"] = rng.randint(1, 3)
         if self.allow_reenter and rng.random() < 0.35:
